@@ -307,6 +307,36 @@ func (e *Engine) mergeStates(sts []*State, extras [][]Val) (*State, []Val) {
 		}
 		if keepR {
 			out.R = vs[0].R
+		} else {
+			// keep function identities as guarded alternatives
+			out.R = make([]*Refine, len(out.L))
+			for k := range out.L {
+				var alts []RefAlt
+				ok := true
+				same := true
+				for i, v := range vs {
+					r := v.ref(k)
+					if r == nil || (r.Fn == nil && len(r.Alts) == 0) {
+						ok = false
+						break
+					}
+					if r != vs[0].ref(k) {
+						same = false
+					}
+					if len(r.Alts) > 0 {
+						for _, a := range r.Alts {
+							alts = append(alts, RefAlt{mkAnd(guards[i], a.Guard), a.R})
+						}
+					} else {
+						alts = append(alts, RefAlt{guards[i], r})
+					}
+				}
+				if same {
+					out.R[k] = vs[0].ref(k)
+				} else if ok {
+					out.R[k] = &Refine{Alts: alts}
+				}
+			}
 		}
 		return out
 	}
